@@ -58,7 +58,7 @@ class Spec(object):
 
 def gen_spec(rng, nstates=None, max_depth=8, nsignals=None, shape=None, p_init=0.45,
              p_react=0.5, clauses='mixed', fx_rate=0.0, fx_ops=('post_fifo', 'post_lifo'),
-             decline_bias=0.2, deep=False, tricky_names=0.3, p_vars=0.4, p_query=0.2, name_style=None, p_poke=0.15, p_swallow=0.0, p_mute=0.0):
+             decline_bias=0.2, deep=False, tricky_names=0.3, p_vars=0.4, p_query=0.2, name_style=None, p_poke=0.15, p_swallow=0.0, p_mute=0.0, p_decline_query=0.0):
   """draw a chart spec.  All randomness comes from rng."""
   if nstates is None:
     nstates = rng.randrange(2, 15)
@@ -166,6 +166,11 @@ def gen_spec(rng, nstates=None, max_depth=8, nsignals=None, shape=None, p_init=0
           continue
         if r < decline_bias:
           s['react'][sig] = {'kind': 'decline'}
+          if p_decline_query and rng.random() < p_decline_query:
+            # a guard that looks at the chart (is_in, child_state, current_state) and then declines
+            fx_id[0] += 1
+            s['react'][sig]['fx'] = [{'op': 'query', 'q': rng.choice(['is_in', 'child', 'current_state']), 'arg': rng.choice(names + ['top']),
+                                      'id': fx_id[0], 'max': 1000}]
         elif r < decline_bias + 0.25:
           s['react'][sig] = {'kind': 'hook', 'fx': draw_fx() + plain_fx(True)}
           if p_mute and rng.random() < p_mute:
@@ -296,6 +301,7 @@ def build_closure(spec, rec, spied=True, effects=None, malform=None, unspied=())
           return rs.HANDLED
         elif k == 'decline':
           rec('decline', name, sn, None)
+          b._fx(chart, e, r.get('fx'))
           return rs.UNHANDLED
         elif k == 'swallow':
           rec('swallow', name, sn, None)
@@ -378,6 +384,7 @@ def _callbacks(b, chart_ns):
       elif k == 'decline':
         def cb(chart, e):
           b.rec('decline', name, e.signal_name, None)
+          b._fx(chart, e, r.get('fx'))
           return rs.UNHANDLED
       elif k == 'swallow':
         def cb(chart, e):
